@@ -1701,6 +1701,11 @@ impl Universe {
                     if verdict == "starved" && polls < 60 {
                         continue;
                     }
+                    // a thread seen sleeping once may just be waiting for memory or
+                    // I/O on an overloaded machine: blocked means blocked three polls in a row
+                    if verdict == "blocked" && polls < 3 {
+                        continue;
+                    }
                     out.hang = true;
                     out.find("hang", format!("a caller thread made no system call for {} s ({verdict})", polls * 10), out.steps);
                     return false;
